@@ -18,12 +18,12 @@ namespace math
 {
 namespace detail
 {
-template <typename T>
-inline bool array_less(T const &_a, T const &_b)
+template <typename T1, typename T2>
+inline bool array_less(T1 const &_a, T2 const &_b)
 {
-  fcppt::math::to_array_type<T> const array_a(fcppt::math::to_array(_a));
+  fcppt::math::to_array_type<T1> const array_a(fcppt::math::to_array(_a));
 
-  fcppt::math::to_array_type<T> const array_b(fcppt::math::to_array(_b));
+  fcppt::math::to_array_type<T2> const array_b(fcppt::math::to_array(_b));
 
   return std::lexicographical_compare(
       array_a.begin(), array_a.end(), array_b.begin(), array_b.end());
